@@ -288,7 +288,7 @@ ADDENDA = {
             "technique": "translator tie for fill_cij and cij fill (expression-tree evaluators = model)"},
     "C10": {"text": "cij/util/voigt.py is re-translated AS A WHOLE on every run into a PyLite module (deep embedding of the pure-Python subset, fuelled evaluator, CijModel/PyLite.lean); kernel evaluation proves translated source = hand model on the complete finite domain (2095 spellings) and on all views of the 21 keys (voigt_model_is_source*); every clause is restated about the translated source (voigt_source_*); rejection and canonical value for ALL integers (continuation extraction around `sorted`, split on i <= j); one-argument integers for all n < 10^1900 via str(int) = digits and induction over the generator expression; model = source for every one/two/four-integer spelling (voigt_model_is_source_ints); the PyLite evaluator is tested against CPython on the domain + a malformed stream every run (tested, not proved).",
             "technique": "ast -> PyLite translator, decide +kernel / kernel_rfl on the translated AST, differential test PyLite vs CPython"},
-    "C18": {"text": "cli/static.py::main is translated into 17 guarded blocks of statements (tools/gens/static_src.py) with helpers fit_modulus / v2p1d, the six VRH formulas as expression trees, click names/types/choices/defaults and units.py helpers as pint expressions; static_model_is_source*: runWith = the interpretation of the translated blocks, block by block and as a whole, for every scalar type (hypothesis FillFrame on the filled frame); block order facts (table density -> fill -> --cellmass -> VRH -> units -> velocities -> sampling) read off the translated order; defaults and unit helpers as translated.",
+    "C18": {"text": "cli/static.py::main is translated into 17 guarded blocks of statements (tools/gens/static_src.py) with helpers fit_modulus / v2p1d, the six VRH formulas as expression trees, click names/types/choices/defaults and units.py helpers as pint expressions; static_model_is_source*: runWith = the interpretation of the translated blocks, block by block and as a whole, for every scalar type, with NO hypothesis on the filling: fill_cij := the fill model Fill.fill, whose output is proved duplicate-free and to keep V, F, P, density unchanged (fill_keeps_frame); for the driver's Float run the two values the correspondence compares are proved equal (static_model_is_source_driver); block order facts (table density -> fill -> --cellmass -> VRH -> units -> velocities -> sampling) read off the translated order; defaults and unit helpers as translated.",
             "technique": "translator tie for run-static (interpreter of the translated blocks = model)"},
     "C02": {"text": "qha_adapter.py and units.py translated completely (tools/gens/qha_src.py: 38 + 10 defs as data): object-graph proof that v_array / t_array / heat_capacity / pressures are finer_volumes_bohr3 / temperature_array / cv_tv_au / p_tv_au of ONE qha calculator; read_input rejects non-decreasing volumes for every ordered scalar; convert_unit value and curried forms; the nine unit helpers preserve dimension and the to/from pairs are inverse; dimensional analysis over exponent vectors: the translated gap tree and T V (dP/dT)^2 / C_V carry exactly Ry/bohr^3, Q = hbar omega / k_B T is dimensionless with omega in cm^-1, unit-covariance of the gap (c02_glue_is_source_*); shear target formula and task identity/equality/store wiring restated from the translated shear.py / tasks.py (c02_shear_target_is_source, c02_tasks_are_source).",
             "technique": "translator tie for qha_adapter.py/units.py with dimensional analysis of the translated expression trees"},
